@@ -46,6 +46,7 @@ import warnings
 from hypothesis import strategies as st
 
 from vp.gen import exprs as G
+G.INCLUDE_CLOSURES = True  # closures as non-sympy attributes (equality/hash must tell them apart)
 from vp.harness import Result, UnderTestError, ok, skip, under_test, violation
 
 PROPERTY = "C14"
@@ -139,6 +140,12 @@ def fixed_cases(tier):
                           {"name": "q^2_x"}]},
         {**base, "expr": ["cls", "BoostMatrix", [["cls", "NegativeMomentum", [p], {}]], {}]},
         {**base, "expr": ["cls", "EuclideanNorm", [["cls", "ThreeMomentum", [p], {}]], {}]},
+        # two closures of one factory as non-sympy attribute: equal module and qualified name, different
+        # functions (equality / hash must tell them apart)
+        {**base, "pair": {"op": "attr", "i": 1, "j": 0},
+         "expr": ["cls", "EnergyDependentWidth",
+                  [["sym", "s_p"], ["sym", "m_p"], ["sym", "g_n"], ["sym", "m_p"], ["sym", "w_p"], ["int", 1], ["num", "1"]],
+                  {"phsp_factor": "closure_phsp_1", "name": None}]},
         # witness: ComplexSqrt prints un-parenthesised code when assumptions decide the sign
         {**base, "expr": ["cls", "Kallen", [["cls", "ComplexSqrt", [["mul", ["num", "2"], ["sym", "s_p"]]], {}],
                                             ["sym", "y"], ["sym", "z"]], {}]},
@@ -595,7 +602,11 @@ def make_variant(tree, pair):
             path, node, key = cands[i % len(cands)]
             pool = G.NAMES if key == "name" else sorted(G.phsp_factors())
             others = [v for v in pool if v != node[3][key]]
-            new = [node[0], node[1], node[2], {**node[3], key: others[j % len(others)]}]
+            # the nearest neighbour first: another closure of the same factory (equal module and
+            # qualified name) is the value that a name-based hash cannot tell apart
+            if str(node[3][key]).startswith("closure_phsp_"):
+                others = [v for v in others if str(v).startswith("closure_phsp_")] + others
+            new = [node[0], node[1], node[2], {**node[3], key: others[j % len(others)] if j % 3 else others[0]}]
             return G.replace_at(tree, path, new), "attr", f"{node[1]}.{key} at {list(path)}", None
         op = "arg"
     cands = [(p, k) for p, n in nodes for k in range(len(n[2]))]
